@@ -76,6 +76,12 @@ func (s StreamConstructor) NewReceiver(
 		opt(&options)
 	}
 
+	// StreamFromLatest is resolved when the receiver is created and only if no position has been stored for its name:
+	// the receiver then starts after everything sent so far, which on an empty stream is position 0.
+	if options.StreamFromLatest && !s.cursorStore.Has(name) {
+		s.cursorStore.Set(name, len(*s.stream.log))
+	}
+
 	return &Stream{
 		mu:          s.stream.mu,
 		log:         s.stream.log,
@@ -122,11 +128,6 @@ func (s *Stream) Recv(ctx context.Context) (*workflow.Event, workflow.Ack, error
 		s.mu.Unlock()
 
 		cursorOffset := s.cursorStore.Get(s.name)
-		if s.options.StreamFromLatest && cursorOffset == 0 {
-			s.cursorStore.Set(s.name, len(log))
-			continue
-		}
-
 		if len(log)-1 < cursorOffset {
 			continue
 		}
@@ -173,6 +174,15 @@ func (cs *cursorStore) Get(name string) int {
 	defer cs.mu.Unlock()
 
 	return cs.cursors[name]
+}
+
+// Has reports whether a position has been stored for the name.
+func (cs *cursorStore) Has(name string) bool {
+	cs.mu.Lock()
+	defer cs.mu.Unlock()
+
+	_, ok := cs.cursors[name]
+	return ok
 }
 
 func (cs *cursorStore) Set(name string, value int) {
